@@ -16,7 +16,12 @@ func init() {
 		{Name: "call pops its arguments first to last", File: f, Old: "\t\tfor k := len(argList) - 1; k >= 0; k-- {\n\t\t\tx := fnCallType.Params[k]", New: "\t\tfor k := 0; k < len(argList); k++ {\n\t\t\tx := fnCallType.Params[k]", Expect: "list-stack-order :: wat2cWorker.buildFunc_ins: Pop per element of fnCallType.Params"},
 		{Name: "call pushes its results last to first", File: f, Old: "\t\t\tfor k, retType := range fnCallType.Results {\n\t\t\t\treti := stk.Push(retType)", New: "\t\t\tfor k := len(fnCallType.Results) - 1; k >= 0; k-- {\n\t\t\t\tretType := fnCallType.Results[k]\n\t\t\t\treti := stk.Push(retType)", Expect: "list-stack-order :: wat2cWorker.buildFunc_ins: Push per element of fnCallType.Results"},
 		{Name: "C prelude: i64.ctz(0) answers 32", File: "internal/wat/watutil/wat2c/_math_x.c", Old: "#define I64_CTZ(x) ((x) ? __builtin_ctzll(x) : 64)", New: "#define I64_CTZ(x) ((x) ? __builtin_ctzll(x) : 32)", Expect: "c-prelude-bit-macros :: I64_CTZ"},
-		{Name: "C prelude: i64 rotate masks the count with 31", File: "internal/wat/watutil/wat2c/_math_x.c", Old: "#define I64_ROTL(x, y) ROTL(x, y, 63)", New: "#define I64_ROTL(x, y) ROTL(x, y, 31)", Expect: "c-prelude-bit-macros :: I64_ROTL"},
+		{Name: "C prelude: i64 rotate masks the count with 31", File: "internal/wat/watutil/wat2c/_math_x.c", Old: "#define I64_ROTL(x, y) ((int64_t)ROTL((uint64_t)(x), y, 63))", New: "#define I64_ROTL(x, y) ((int64_t)ROTL((uint64_t)(x), y, 31))", Expect: "c-prelude-bit-macros :: I64_ROTL"},
+		{Name: "C prelude: i32 rotate on the signed value", File: "internal/wat/watutil/wat2c/_math_x.c", Old: "#define I32_ROTR(x, y) ((int32_t)ROTR((uint32_t)(x), y, 31))", New: "#define I32_ROTR(x, y) ROTR(x, y, 31)", Expect: "c-prelude-bit-macros :: I32_ROTR: unsigned operand"},
+		{Name: "val_t loses its unsigned 64-bit view", File: "internal/wat/watutil/wat2c/wat2c_code.go", Old: "\tfmt.Fprintf(w, \"  uint64_t  u64;\\n\")\n", New: "", Expect: "union-member-exists :: R<n>.u64"},
+		{Name: "f64 constants printed with %f", File: f, Old: "\"%sR%d.f64 = %x; // %s\\n\"", New: "\"%sR%d.f64 = %f; // %s\\n\"", Expect: "float-literal-exact"},
+		{Name: "br copies its results from the last to the first", File: f, Old: "\t\t\t\tfor i := 0; i < len(destScopeResults); i++ {\n\t\t\t\t\txType := destScopeResults[i]\n\t\t\t\t\treti := retIdxList[i]", New: "\t\t\t\tfor i := len(destScopeResults) - 1; i >= 0; i-- {\n\t\t\t\t\txType := destScopeResults[i]\n\t\t\t\t\treti := retIdxList[i]", Expect: "overlap-copy-direction"},
+		{Name: "i32.rem_s without the -1 guard", File: f, Old: "\"%sR%d.i32 = R%d.i32 %% ((R%d.i32 == -1)? 1: R%d.i32); // %s\\n\",\n\t\t\tindent, ret0, sp1, sp0, sp0,", New: "\"%sR%d.i32 = R%d.i32 %% R%d.i32; // %s\\n\",\n\t\t\tindent, ret0, sp1, sp0,", Expect: "c-operator :: i32.rem_s"},
 		{Name: "memory.grow stores the old size before it adds the delta", File: "internal/wat/watutil/wat2c/wat2c_func.go", Old: "\t\t\tfmt.Fprintf(w, \"%sint32_t temp = %s_memory_size;\\n\",\n\t\t\t\tindent+indent, p.opt.Prefix,\n\t\t\t)", New: "\t\t\tfmt.Fprintf(w, \"%sR%d.i32 = %s_memory_size;\\n\",\n\t\t\t\tindent+indent, ret0, p.opt.Prefix,\n\t\t\t)", Old2: "\t\t\tfmt.Fprintf(w, \"%sR%d.i32 = temp;\\n\",\n\t\t\t\tindent+indent, ret0,\n\t\t\t)\n", New2: "", Expect: "operand-read-after-result-write :: memory.grow"},
 		{Name: "br copies results only when they are above the current block's base", File: "internal/wat/watutil/wat2c/wat2c_func.go", Old: "\t\t\tif firstResultOffset > destScopeStackBase {", New: "\t\t\tif firstResultOffset > currentScopeStackBase {", Expect: "br-result-copy-guard"},
 		{Name: "data literal: 'F' after a hex escape not split off", File: "internal/wat/watutil/wat2c/wat2c_code.go", Old: "if prevIsHexEscape && x <= 'F' {", New: "if prevIsHexEscape && x < 'F' {", Expect: "c-data-literal"},
@@ -104,12 +109,15 @@ func runC03(c *Ctx) {
 	c03DataLiteral(c, p, pk)
 	c03BrResultCopy(c, p, pk)
 	c03ListOrder(c, p, pk)
+	c.Min("overlap-copy-direction", "result-moving loops of wat2c", copyDirection(c, p, pk, ""), 1)
 	by := stackEffectRules(c, p, "wat2c", pk, ins)
 	if by == nil {
 		return
 	}
 	c03SlotAliasing(c, p, by, ins)
 	c03MemoryGrow(c, p, by)
+	c03UnionMembers(c, p, pk)
+	c.Min("float-literal-exact", "float values written into the generated C code", floatLiteralExact(c, p, pk, []string{"//"}, ""), 6)
 	c03Prelude(c)
 	var names []string
 	for k := range ins {
@@ -202,6 +210,10 @@ func runC03(c *Ctx) {
 				want = "R=R==0?1:0;"
 			case cop[op] != "" && (strings.HasPrefix(op, "eq") || strings.HasPrefix(op, "ne") || strings.HasPrefix(op, "lt") || strings.HasPrefix(op, "gt") || strings.HasPrefix(op, "le") || strings.HasPrefix(op, "ge")):
 				want = "R=R" + cop[op] + "R?1:0;"
+			case op == "rem_s":
+				// x rem_s -1 is 0 in WebAssembly for every x; C's % is undefined for INT_MIN % -1 (idiv faults), so the
+				// divisor -1 is replaced by 1 (x % 1 == 0)
+				want = "R=R%R==-1?1:R;"
 			case cop[op] != "":
 				want = "R=R" + cop[op] + "R;"
 			case op == "shl":
